@@ -6,6 +6,10 @@ LEAN_MODULES = ['Py65.Props.C13', 'Py65.Props.C13b']
 EXPECTED_THEOREMS = ['Py65.Props.C13.cycles_nmos6502', 'Py65.Props.C13.cycles_org16', 'Py65.Props.C13.cycles_cmos_partial',
                      'Py65.Props.C13.cycles_table_6502', 'Py65.Props.C13.bra_deviation', 'Py65.Props.C13.irq_cycles']
 NAMESPACES = ['Py65.Props.C13']
+# library helpers (CPython behaviour modelled in lean/Py65/Model/*Rt*.lean ...) that the generated code of these
+# modules calls, derived by scanning the Lean sources (harness/rtscan.py); validated against CPython on every run
+import rtcheck  # noqa: E402
+RT_HELPERS = rtcheck.helpers_for(LEAN_MODULES)
 TRUSTED = ['Spec.Cpu / Spec.Cycles (hand-written programming model and documented cycle table, the oracle)', 'translator harness/py2lean.py, validated on every run by exact-state comparison with the real device', 'Py.land/lor/lxor definitions (characterised by theorems, differentially tested)']
 ASSUMPTIONS = ['the per-opcode assembly (delta cycles = Spec.stepCycles) is proved for every declared opcode of every device (C13b: cycles_nmos6502, cycles_org16, cycles_cmos_partial) except 65C02 BRA', 'KNOWN FINDING 65C02 BRA: excluded in cycles_table_65c02_partial, witnessed by bra_deviation']
 LEVEL = 'proof'
